@@ -128,19 +128,23 @@ CLAIMED['C17'] = dict(
          'collection exists and stays listed (and makes its database listed) from its first '
          'insert / create_index / create_collection until dropped or renamed; create_collection '
          'on an existing name fails without effect; rename moves exactly documents and indexes '
-         'and its error cases change nothing; after drop_collection / drop / drop_database every '
-         'old handle finds nothing and stays usable; handles and clients sharing a store agree, '
-         'independent clients are isolated; index_information lists _id_ plus exactly the indexes '
-         'created and not dropped. The full-strength refinement is refuted on a witness history '
-         '(a collection vanishes from the listings when its last document is deleted), and each of '
-         'the seven exclusion classes is shown necessary by a witness. Tie: histories of 1-30 '
+         'and its error cases (its own name included) change nothing; after drop_collection / drop '
+         '/ drop_database, by name or by any handle of that name, every old handle finds nothing '
+         'and stays usable; handles and clients sharing a store agree, independent clients are '
+         'isolated (no exception left); a filtered listing is the listing filtered; '
+         'index_information lists _id_ plus exactly the indexes created and not dropped. The '
+         'full-strength refinement is refuted on a witness history (a collection vanishes from the '
+         'listings when its last document is deleted), each of the two remaining exclusion classes '
+         'is shown necessary by a witness, and the witnesses of the five classes repaired in the '
+         'library are shown to be inside D with the right answers. Tie: histories of 1-30 '
          'catalog and data operations over 3 clients (one sharing a store), 2 databases, several '
          'names and old/fresh handles; after every call the full observable state of every client '
          'is compared with the model and with the specification run along the history.',
-    note='Known findings (7 classes, replayed each run): vanish_last_doc, vanish_last_index, '
-         'rename_self_droptarget, filter_lists_uncreated, drop_database_foreign_handle, '
-         'drop_collection_foreign_handle, system_create_existing. TTL/unique semantics of '
-         'indexes belong to C06/C09.')
+    note='Known findings (2 classes, replayed each run): vanish_last_doc, vanish_last_index. '
+         'Repaired in the library (5; their witnesses go through the correspondence each run, a '
+         'recurrence is a violation): rename_self_droptarget, filter_lists_uncreated, '
+         'drop_database_foreign_handle, drop_collection_foreign_handle, system_create_existing. '
+         'TTL/unique semantics of indexes belong to C06/C09.')
 
 CLAIMED['C20'] = dict(
     technique='model REGENERATED from the source on every run (dispatch tables by introspection '
